@@ -56,6 +56,13 @@ MEMPOOL_HARNESSES = [
      'obligations': ['REAL MemPool::removeAll with a VTB that is connected once or twice (resubmission of a connected payload): afterwards neither the per-type map nor the VBK relations hold it, and generatePopData never returns it again'],
      'rungs': {'quick': [{'bound': 'one VTB connected 1..2 times on VBK block 3 (pool state constructed directly), removeAll, generatePopData', 'timeout': 200}], 'thorough': [{'bound': 'as quick', 'timeout': 400}]}},
 ]
+INV_HARNESSES = [
+    {'name': 'h_realinv', 'src': 'real/h_realinv.cpp', 'entry': 'h_realinv', 'repo_srcs': srcsets_real.REAL, 'covers': [1, 2, 3, 4], 'jobs': 16,
+     'obligations': ['REAL AltBlockTree under histories mixing setState / invalidateSubtree / revalidateSubtree / removeSubtree / re-announcement of a removed block: after every call links, heights, failed-propagation and the tip set are consistent, the best chain runs only through valid blocks, exactly root..tip are ACTIVE and applied, the payload index describes exactly the payloads of the existing blocks, the VBK tree holds exactly the context of the active chain, removed blocks are in no view',
+                     'invalidateSubtree marks the whole subtree and moves the tip out of it; revalidateSubtree of the block that carries the mark clears it; setState refuses exactly the failed blocks'],
+     'rungs': {'quick': [{'defines': ['NOPS=2'], 'bound': 'ALT tree 1-2-{3,4}, 5 on 1; VBK context in blocks 2 and 3, optional ATV in 4; any first tip; every sequence of 2 operations (5 kinds x 4 targets)', 'timeout': 300}],
+               'thorough': [{'defines': ['NOPS=3'], 'bound': 'every sequence of 3 operations', 'timeout': 1500}]}},
+]
 PAYOUT_HARNESSES = [
     {'name': 'h_payout', 'src': 'real/h_payout.cpp', 'entry': 'h_payout', 'repo_srcs': srcsets_real.REAL, 'covers': [1, 2, 3], 'jobs': 16,
      'obligations': ['REAL getPopPayout on the real trees == independent specification of who is paid what: the block paid is the tip\'s ancestor at the payout delay; only endorsements whose block of proof is on the VBK best chain count (a losing VBK fork does not, neither for the score nor for the best publication height); weights by relative VBK height from the lookup table; difficulty = averaged score of the preceding blocks (minimum 1); amounts of the same miner accumulate; nobody else is paid'],
